@@ -32,6 +32,8 @@ use ironbeam::collection::{CombineFn, LiftableCombiner};
 use ironbeam::combiners::PriorityReservoir;
 use ironbeam::{PCollection, Pipeline, RFBound, from_vec};
 use std::collections::HashMap;
+use std::sync::atomic::{AtomicUsize, Ordering};
+use std::sync::{Mutex, OnceLock};
 use serde_json::{Value, json};
 
 fn ints(v: &Value) -> Vec<i64> {
@@ -369,9 +371,21 @@ fn valid(kind: &str, input: &Value) -> bool {
     }
 }
 
+/// observations of the heavy generated cases, computed ahead of emission on several threads
+/// (`Buf::flush`); replayed / shrunk cases are never in here
+static PRECOMPUTED: OnceLock<Mutex<HashMap<String, Value>>> = OnceLock::new();
+fn cache_key(kind: &str, input: &Value) -> String {
+    format!("{kind}|{input}")
+}
+
 fn run(kind: &str, input: &Value) -> Value {
     if !valid(kind, input) {
         return json!(["invalid"]);
+    }
+    if let Some(m) = PRECOMPUTED.get()
+        && let Some(v) = m.lock().unwrap().remove(&cache_key(kind, input))
+    {
+        return v;
     }
     run_valid(kind, input)
 }
@@ -497,6 +511,27 @@ impl Buf {
     }
     fn flush(mut self, em: &mut Emitter) {
         const SHARDS: usize = 16;
+        // run the heavy cases now, a few at a time (each pipeline is independent; a panic is an
+        // observation like any other)
+        {
+            let next = AtomicUsize::new(0);
+            let out: Mutex<HashMap<String, Value>> = Mutex::new(HashMap::new());
+            let jobs = &self.big;
+            let workers = std::thread::available_parallelism().map_or(4, |n| n.get()).clamp(1, 12);
+            std::thread::scope(|sc| {
+                for _ in 0..workers {
+                    sc.spawn(|| {
+                        loop {
+                            let i = next.fetch_add(1, Ordering::SeqCst);
+                            let Some((_, (kind, input, _, _))) = jobs.get(i) else { break };
+                            let v = ibv::run_caught(&run, kind, input);
+                            out.lock().unwrap().insert(cache_key(kind, input), v);
+                        }
+                    });
+                }
+            });
+            let _ = PRECOMPUTED.set(Mutex::new(out.into_inner().unwrap()));
+        }
         // heaviest first, dealt round-robin to the shards
         self.big.sort_by(|a, b| b.0.cmp(&a.0));
         let mut per: Vec<Vec<(String, Value, bool, Vec<String>)>> = (0..SHARDS).map(|_| Vec::new()).collect();
